@@ -135,3 +135,8 @@ func init() {
 		return mkStr(E.params[mustConcStr(a[0])])
 	}
 }
+
+func init() {
+	verifFuncs["verifOr"] = func(fr *frame, a []value) value { return Or(a[0].(*Term), a[1].(*Term)) }
+	verifFuncs["verifAnd"] = func(fr *frame, a []value) value { return And(a[0].(*Term), a[1].(*Term)) }
+}
